@@ -50,6 +50,18 @@ pub fn main(args: &Args) -> i32 {
     match args.opt("child") {
         Some("dec") => return child::main_dec(),
         Some("runs") => return child::main_runs(),
+        Some("probe-time") => {
+            // prints chrono's representable timestamp range (for TMAX / TMIN of Codec.tla)
+            use chrono::TimeZone;
+            let ok = |s: i64| chrono::Utc.timestamp_opt(s, 0).single().is_some();
+            let (mut lo, mut hi) = (0i64, i64::MAX / 2);
+            while lo < hi { let m = lo + (hi - lo + 1) / 2; if ok(m) { lo = m } else { hi = m - 1 } }
+            let max = lo;
+            let (mut lo, mut hi) = (i64::MIN / 2, 0i64);
+            while lo < hi { let m = lo + (hi - lo) / 2; if ok(m) { hi = m } else { lo = m + 1 } }
+            println!("max {max} {:?} min {lo} {:?}", max.to_be_bytes(), lo.to_be_bytes());
+            return 0
+        }
         _ => {}
     }
     crate::env::init_process();
